@@ -1,2 +1,65 @@
-(* C10 -- placeholder *)
-Theorem C10_placeholder : True. Proof. exact I. Qed.
+(* C10 -- Ready is granted only for a correct upgrade reply to a well-formed request.  Statements only.
+   SHA-1 and base64 are outside the model: [accept] stands for base64(sha1(key ++ GUID)) of the key this connection sent
+   and is computed by the harness from the request actually written. *)
+From Coq Require Import String.
+From Coq Require Import List NArith.
+From Coq.Strings Require Import Byte.
+From Model Require Import Bytes Parser FrameParser Response Handshake Conn.
+From Proofs Require Import HandshakeFacts GenTie.
+Import ListNotations.
+Open Scope N_scope.
+
+(* the decision of the model's on_response over the model's reply parser, which handles header order, letter case of
+   names, optional whitespace, folding and duplicates: Ready iff status 101, Upgrade: websocket, and an accept value that
+   equals the expected one UP TO LETTER CASE *)
+Theorem C10_decision_partial : forall accept r proto d,
+  on_response accept r = HReady proto d <->
+  r_status r = Some 101 /\
+  (exists u, resp_get r (str "upgrade"%string) = Some u /\ lower_s u = str "websocket"%string) /\
+  (exists a, resp_get r (str "sec-websocket-accept"%string) = Some a /\ lower_s a = lower_s accept) /\
+  process_extensions (resp_get_list r (str "sec-websocket-extensions"%string)) None = Some d /\
+  proto = resp_get r (str "sec-websocket-protocol"%string).
+Proof. exact on_response_ready_iff. Qed.
+Print Assumptions C10_decision_partial.
+
+(* the statement as given (accept EQUAL to the digest) is false of the faithful model -- and of the code: known finding
+   KF-D; the witness below is replayed on the implementation by the check (family C10:replies, kind accept_case) *)
+Theorem C10_decision_refuted : ~ full_statement.
+Proof. exact full_statement_refuted. Qed.
+Print Assumptions C10_decision_refuted.
+
+Theorem C10_rejected_otherwise : forall accept r,
+  (exists p d, on_response accept r = HReady p d) \/ on_response accept r = HRejected.
+Proof. exact on_response_cases. Qed.
+
+Theorem C10_header_block_limit : forall d, 16384 < N.of_nat (length d) ->
+  (forall i, find_sep CRLFCRLF d = Some i -> 16384 < N.of_nat (i + 4)) ->
+  fp_pull fp_init d = Err PE_HeaderTooLong.
+Proof. exact header_block_too_long. Qed.
+Print Assumptions C10_header_block_limit.
+
+Theorem C10_request_shape : forall q,
+  build_request q = join CRLF ((str "GET "%string ++ q_resource q ++ str " HTTP/1.1"%string) :: map header_line (request_headers q) ++ [CRLF]) /\
+  In (str "Host"%string, q_host q ++ str ":"%string ++ decimal (q_port q)) (request_headers q) /\
+  In (str "Upgrade"%string, str "websocket"%string) (request_headers q) /\
+  In (str "Connection"%string, str "Upgrade"%string) (request_headers q) /\
+  In (str "Sec-WebSocket-Key"%string, q_key q) (request_headers q) /\
+  In (str "Sec-WebSocket-Version"%string, decimal (q_version q)) (request_headers q) /\
+  (forall h, In h (q_custom q) -> In h (request_headers q)).
+Proof. exact request_shape. Qed.
+
+(* (regenerated) the GUID and the protocol version used by the running code are the RFC's *)
+Theorem C10_constants : map n2b Gen.GenConst.impl_ws_key = rfc_guid /\ Gen.GenConst.impl_ws_version = 13.
+Proof. destruct impl_constants as (A & B & _). split; assumption. Qed.
+
+Example C10_reply_spellings :
+  let acc := str "s3pPLMBiTxaQ9kYGzzhZRbK+xOo="%string in
+  (* permuted, names in other letter case, padded, folded *)
+  on_response acc (parse_response (str "HTTP/1.1 101 OK"%string ++ CRLF ++ str "sec-websocket-ACCEPT:"%string ++ CRLF ++
+                                   str "   s3pPLMBiTxaQ9kYGzzhZRbK+xOo=  "%string ++ CRLF ++ str "UPGRADE:   WebSocket"%string ++ CRLFCRLF))
+    = HReady None None /\
+  on_response acc (parse_response (str "HTTP/1.1 200 OK"%string ++ CRLF ++ str "Upgrade: websocket"%string ++ CRLF ++
+                                   str "Sec-WebSocket-Accept: s3pPLMBiTxaQ9kYGzzhZRbK+xOo="%string ++ CRLFCRLF)) = HRejected /\
+  on_response acc (parse_response (str "HTTP/1.1 101 OK"%string ++ CRLF ++ str "Upgrade: websocket"%string ++ CRLF ++
+                                   str "Sec-WebSocket-Accept: AAAAAAAAAAAAAAAAAAAAAAAAAAA="%string ++ CRLFCRLF)) = HRejected.
+Proof. vm_compute. repeat split; reflexivity. Qed.
